@@ -1600,6 +1600,7 @@ class MacroFunction(Macro):
                     last_cat = True
                     empty_cat = len(last) == 0 and len(nexttok) == 0
                 elif tok.token == "#":
+                    prev_white = tok.prev_white
                     idx += 1
                     if idx == len(self.replacement):
                         raise ParseError(
@@ -1614,7 +1615,7 @@ class MacroFunction(Macro):
                             "# was not followed by a macro argument.",
                         )
                     tok = Lexer.stringify(tok)
-                    tok.prev_white = tok.prev_white
+                    tok.prev_white = prev_white
                     last_cat = True
                     res_tokens.append(tok)
                 else:
